@@ -241,6 +241,17 @@ def run(eng, R):
 
     seen = set()
     reads = closure_reads(md, seen)
+    # helpers of the fit itself called from the adapter (self._fit.<method>()) are read through as well
+    HF = p.find_class("HistFit")
+    for c in [x for x in ast.walk(md.node) if isinstance(x, ast.Call) and isinstance(x.func, ast.Attribute) and " ".join(ast.unparse(x.func.value).split()) == "self._fit"]:
+        hm = HF.find_method(c.func.attr)
+        if hm is not None and c.func.attr != "eval_model_function_density":
+            for a in ast.walk(hm.node):
+                if isinstance(a, ast.Attribute):
+                    t = " ".join(ast.unparse(a).split())
+                    reads.append(t)
+                    if t in ("self._density", "self._param_model.density", "self.density"):
+                        reads.append("self._fit.density")
     has_total = any(r.endswith(".n_entries") for r in reads)
     from_bins = sorted({r for r in reads if r in ("self.data_y", "self._fit.data", "self.model_y", "self._fit.model")})
     R.ob("H-panel", "HistPlotAdapter.model_density_y:entries", has_total and not from_bins, (md.file, md.lineno),
